@@ -670,6 +670,10 @@ def correspondence(ctx):
     ctx.traces += len(reqs)
     # ---- copies and pickles: the reduce / rebuild model ----
     reduce_correspondence(ctx)
+    # ---- tzutc / tzoffset methods re-translated from source (Generated/TzFixedKernels.lean) ----
+    import tzhelplib
+    tzhelplib.validate_fixed(ctx)
+    tzhelplib.validate_local(ctx)
 
 
 # ======================================================================================
